@@ -565,7 +565,15 @@ type Specs struct {
 	RawSMT    []string
 	Macros    map[string][]string
 	ElemInvs  []ElemInv
+	SpecFuns  map[string]*SpecFun // "specfun name(a, b) = expr": macro expanded at use
 	FreshInits []ElemInv // "freshinit <type>: <expr over x>": holds for a freshly allocated object x of that struct type
+}
+
+type SpecFun struct {
+	Name   string
+	Params []string
+	Body   Expr
+	Src    string
 }
 
 // ElemInv is a global invariant on the elements of every slice / array / map value whose element
@@ -578,7 +586,7 @@ type ElemInv struct {
 }
 
 func newSpecs() *Specs {
-	return &Specs{Funs: map[string]*FunDecl{}, Contracts: map[string]*Contract{}, Macros: map[string][]string{}}
+	return &Specs{Funs: map[string]*FunDecl{}, Contracts: map[string]*Contract{}, Macros: map[string][]string{}, SpecFuns: map[string]*SpecFun{}}
 }
 
 var tagRe = regexp.MustCompile(`^\[([A-Za-z0-9_,\* ]+)\]\s*`)
@@ -735,6 +743,22 @@ func (sp *Specs) loadSpecFile(path, commentPrefix string, external bool) error {
 				return fail(err)
 			}
 			sp.ElemInvs = append(sp.ElemInvs, ElemInv{Type: strings.TrimSpace(r2[:i]), Tags: tags, E: e, Src: strings.TrimSpace(r2[i+2:])})
+			cur = nil
+			continue
+		case "specfun":
+			// specfun name(p1, p2) = expr
+			i := strings.Index(rest, "(")
+			j := strings.Index(rest, ")")
+			k := strings.Index(rest, " = ")
+			if i < 0 || j < i || k < j {
+				return fail(fmt.Errorf("specfun name(params) = expr"))
+			}
+			body, err := parseExpr(strings.TrimSpace(rest[k+3:]))
+			if err != nil {
+				return fail(err)
+			}
+			sf := &SpecFun{Name: strings.TrimSpace(rest[:i]), Params: splitList(rest[i+1 : j]), Body: body, Src: rest}
+			sp.SpecFuns[sf.Name] = sf
 			cur = nil
 			continue
 		case "freshinit":
